@@ -94,9 +94,34 @@ def gen_mgmt_cases(rng, tier):
 _gen_cases_pairs = gen_cases
 
 
+import importlib.util, os
+_spec5 = importlib.util.spec_from_file_location("c05", os.path.join(os.path.dirname(__file__), "C05.py"))
+C05 = importlib.util.module_from_spec(_spec5)
+_spec5.loader.exec_module(C05)
+
+
+def full_buffer_handoff_case(rng):
+    """a request parser that is NOT fresh: it was converted from a stream parser (connection reuse) whose buffer is 100% full of
+    look-ahead - the empty-Stdin terminator of request 1 followed by the pipelined start of request 2 - and is first called with no new
+    input, as documented.  It must make progress (skip the terminator, parse on) or report StuckOnInput from that very call; here every
+    pair is within the bound, so request 2 must be parsed"""
+    from fvgen import fmt_arg
+    B = rng.choice([64, 72, 128, 256])
+    p1 = rand_pairs(rng, rng.randrange(0, 2), 10)
+    w1 = flat(minimal_preamble(1, 1, flags=1, pairs=p1) + [record(STDIN, 1, [], rng.choice([0, 0, 3]))])
+    pairs2 = rand_pairs(rng, rng.randrange(2, 6), max(8, (B - 13) // 2 - 4))
+    w2 = flat(preamble(rng, 2, 1, 0, pairs2, junk_rate=0.1, idle=0)[0]) + record(STDIN, 2, [1, 2, 3], 0) + record(STDIN, 2, [], 0)
+    while len(w1) + len(w2) < 2 * B + 16:
+        w2 = record(rng.choice([12, 99]), 0, [rng.randrange(256) for _ in range(rng.randrange(0, 20))], 0) + w2     # idle junk in front
+    ops = [[0, 10 ** 6], [6, 0, rng.choice([1, 2])]]
+    return "str_run " + " ".join(fmt_arg(x) for x in [[B], [3], w1 + w2] + ops), ["bound", "full-buffer-handoff"]
+
+
 def gen_cases(rng, tier):
     yield from _gen_cases_pairs(rng, tier)
     yield from gen_mgmt_cases(rng, tier)
+    for _ in range(40 if tier == "quick" else 2000):
+        yield full_buffer_handoff_case(rng)
 
 
 def nontrivial(line, tags):
@@ -104,10 +129,12 @@ def nontrivial(line, tags):
 
 
 def min_classes(tier):
-    return {"bufsize": 4000, "inside": 60, "outside": 100, "mgmt-long-body": 100}
+    return {"bufsize": 4000, "inside": 60, "outside": 100, "mgmt-long-body": 100, "full-buffer-handoff": 40}
 
 
 def oracle(line, impl_line):
+    if line.startswith("str_run "):
+        return C05.oracle(line, impl_line)        # class full-buffer-handoff: the next request must be parsed, identical to what was sent
     mode, a = parse_case(line)
     o = parse_out(impl_line)
     if o is None or (o == [[18446744073710440504]] and not (mode == "bufsize" and eff(a[0][0]) == 18446744073710440504)):
